@@ -128,7 +128,13 @@ func (rn *runner) protoOne(c protoCase) {
 	rn.res.Case("proto "+c.key(), reached)
 	rn.res.Count("proto:" + c.Call)
 	rn.res.Count("proto-outcome:" + strings.SplitN(impl, ":", 2)[0][:2])
-	in := map[string]string{"kind": "proto", "call": c.Call, "arg": c.Arg, "file": c.File}
+	in := map[string]string{"kind": "proto", "call": c.Call, "arg": c.Arg, "file": c.File, "helper": c.Helper}
+	// direct oracle for Transform: a nil return means the file holds t(old)
+	if f := strings.Fields(impl); c.Call == "transform" && c.Arg != "FAIL" && len(f) >= 2 && f[0] == "ok" && f[1] != c.Arg {
+		rn.violate("impl-violation", "transform:nil-return-but-contents-not-new", "proto transform-lost "+c.Helper,
+			fmt.Sprintf("Transform returned nil but the file holds %s instead of t(old) = %s (old = %s, t = %s)", short(f[1]), short(c.Arg), short(c.File), c.helperArg()),
+			impl, model, in)
+	}
 	for _, r := range rules {
 		rn.violate("impl-violation", "protocol-rule:"+strings.Fields(r)[0], "proto-rule "+strings.Fields(r)[0]+" "+c.Call,
 			"observed system calls break the locking protocol: "+r, impl, "", in)
@@ -153,7 +159,7 @@ func (rn *runner) eintrPhase() {
 	if !rn.st {
 		return
 	}
-	for _, c := range []protoCase{{"write", "78797a", "616263"}, {"read", "-", "616263"}, {"mutex", "-", "absent"}, {"transform", "7a7a", "616263"}} {
+	for _, c := range []protoCase{{"write", "78797a", "616263", ""}, {"read", "-", "616263", ""}, {"mutex", "-", "absent", ""}, {"transform", "7a7a", "616263", ""}} {
 		rn.eintrOne(c)
 	}
 }
